@@ -26,7 +26,7 @@ func init() {
 	register("C15", checkC15)
 	describe("C15", Meta{
 		Technique: "table extraction by symbolic evaluation of Simbox.Add / Rule.String ASTs (print/parse inverse check), must-dominance of the Suspended test on go/cfg for every Simbox.Rules consumer, producer/consumer field agreement over go/types objects",
-		Claim:     "Decides three structural clauses of C15: parse(print(r))==r for every rule shape Add can build (symbolic in tick/object/extra), every consumer of Simbox.Rules outside pkg/simbox skips suspended rules before touching them on all paths, and every rule class/config option accepted by Add has a consumer whose table is read. Necessary conditions only: tick arithmetic, name resolution and reported values are not decided.",
+		Claim:     "Decides three structural clauses of C15: parse(print(r))==r for every rule shape Add can build (symbolic in tick/object/extra), every consumer of Simbox.Rules outside pkg/simbox skips suspended rules before touching them on all paths, every rule class/config option accepted by Add has a consumer whose table is read, and no consumer rewrites a field of a rule before interpreting it (RULEPURE). Necessary conditions only: tick arithmetic, name resolution and reported values are not decided.",
 		Note:      "Assumes rule objects/extras contain no ':' (they come from strings.Split on ':'); the simulator entry points are found by the Simbox.Rules field object, not by name.",
 		DesignRef: "DESIGN.md §2 C15",
 	})
@@ -132,6 +132,7 @@ func checkC15(r *core.Run) {
 	r.Count("string_returns", len(cases))
 	c15PrintParse(r, shapes, cases)
 	c15Suspended(r, prog, sb)
+	c15RulePure(r, prog)
 	c15Handlers(r, prog, sb, shapes)
 	// (d) the compiled tables are indexed in their own index spaces (injectable / reportable /
 	// showable / event-data position vs. external input index)
@@ -1213,4 +1214,104 @@ func fieldReadOutside(prog *core.Program, f *types.Var, except *ast.FuncDecl) st
 		}
 	}
 	return ""
+}
+
+
+// c15RulePure (C15/RULEPURE): a rule is applied exactly as written only if nobody rewrites it on the
+// way: outside pkg/simbox (which parses and edits the list on the user's behalf) no code may assign to
+// a field of a simbox.Rule — neither of an element of Simbox.Rules nor of the loop's copy, since the
+// consumer then interprets the rewritten copy (a tick moved, an object renamed).
+func c15RulePure(r *core.Run, prog *core.Program) {
+	n, bad := 0, 0
+	for _, pk := range prog.Pkgs {
+		if strings.HasSuffix(pk.PkgPath, "pkg/simbox") {
+			continue
+		}
+		info := pk.TypesInfo
+		uses := false
+		for _, imp := range pk.Types.Imports() {
+			if strings.HasSuffix(imp.Path(), "pkg/simbox") {
+				uses = true
+			}
+		}
+		if !uses {
+			continue
+		}
+		core.FuncDecls(pk, func(_ *ast.File, fd *ast.FuncDecl) {
+			k := 0
+			ast.Inspect(fd.Body, func(nd ast.Node) bool {
+				var lhs []ast.Expr
+				switch x := nd.(type) {
+				case *ast.AssignStmt:
+					lhs = x.Lhs
+				case *ast.IncDecStmt:
+					lhs = []ast.Expr{x.X}
+				default:
+					return true
+				}
+				for _, l := range lhs {
+					sel, ok := ast.Unparen(l).(*ast.SelectorExpr)
+					if !ok {
+						continue
+					}
+					f := core.FieldOf(info, sel)
+					if f == nil || f.Pkg() == nil || !strings.HasSuffix(f.Pkg().Path(), "pkg/simbox") {
+						continue
+					}
+					// a field of the struct type Rule
+					t := info.TypeOf(sel.X)
+					if p, ok := t.(*types.Pointer); ok {
+						t = p.Elem()
+					}
+					nm, ok := t.(*types.Named)
+					if !ok || nm.Obj().Name() != "Rule" {
+						continue
+					}
+					// building a fresh rule (a local declared as a Rule value/literal in this function and not a range copy) is allowed
+					if id, ok := ast.Unparen(sel.X).(*ast.Ident); ok {
+						if freshRuleLocal(info, fd, id) {
+							continue
+						}
+					}
+					k++
+					bad++
+					r.Violation("C15/RULEPURE", fmt.Sprintf("C15/RULEPURE:%s:%s#%d", core.FuncKey(pk, fd), f.Name(), k), prog.Pos(l.Pos()), fmt.Sprintf("%s assigns to %s of a simulation rule before interpreting it: the rule that takes effect is not the rule that was written (e.g. a tick moved), for every rule that satisfies the condition of the assignment", core.FuncKey(pk, fd), types.ExprString(l)))
+				}
+				return true
+			})
+			n++
+		})
+	}
+	if bad == 0 {
+		r.OK("C15/RULEPURE", "C15/RULEPURE:none", "", "no code outside pkg/simbox assigns to a field of a simbox.Rule it did not build itself")
+	}
+	r.Count("functions_scanned_for_rule_writes", n)
+}
+
+// freshRuleLocal: id is a local variable of this function that is not the key/value of a range
+// statement nor a parameter (a rule being built, e.g. for an observation simbox).
+func freshRuleLocal(info *types.Info, fd *ast.FuncDecl, id *ast.Ident) bool {
+	o := info.ObjectOf(id)
+	if o == nil {
+		return false
+	}
+	isRange, isParam := false, false
+	for _, p := range fd.Type.Params.List {
+		for _, n := range p.Names {
+			if info.ObjectOf(n) == o {
+				isParam = true
+			}
+		}
+	}
+	ast.Inspect(fd.Body, func(n ast.Node) bool {
+		if rs, ok := n.(*ast.RangeStmt); ok {
+			for _, e := range []ast.Expr{rs.Key, rs.Value} {
+				if rid, ok := e.(*ast.Ident); ok && info.ObjectOf(rid) == o {
+					isRange = true
+				}
+			}
+		}
+		return true
+	})
+	return !isRange && !isParam
 }
